@@ -29,6 +29,7 @@ META = dict(
     technique="guard-dominance + def-use rules at the creation sites, sibling agreement of constructor arguments, None-discipline obligations",
 )
 META["text"] += " Also (R3) a child's best_ancestor is the least-estimate ancestor at both sites that create children; (R6) bookkeeping the subsumption pass relies on: a discarded equivalent / subsumed assertion hands its rules_out to the one kept, and NEBAssertion.subsumes disposes of a ruled-out tail iff the loser outlasts the winner in it (decision table); (R7 = C14.R4) vote_for_cand, whose sums the NEN tallies are, is 1 iff the candidate stands, is ranked, and no other standing candidate is ranked before it."
+META["text"] += " R6 also covers the tree vocabulary of the search: is_descendent_of (strictly longer tail ending in the ancestor's), is_suffix, and replace_descendents (every descendant removed, from the back, then the root inserted)."
 
 
 def run(chk):
@@ -568,3 +569,54 @@ def r6(chk):
     chk.ob("C04.R6", f"{RU}:NEBAssertion.subsumes", "tail-disposed-iff-loser-outlasts-winner", ok,
            "an NEB(w, l) is said to dispose of a ruled-out tail iff l is in the tail and (w is not, or w comes before l); every tail of the "
            "other assertion is examined and True is returned only after all were", node=sub, **detail)
+
+
+    # ---- the tree vocabulary of the search: "is a descendant of", "is a suffix of", and the replacement of a subtree by its root
+    f1 = chk.fn(RU, "RaireNode.is_descendent_of")
+    code, _ = spec.term(f1)
+    p1 = f1.args.args[1].arg
+    want, _ = spec.expr_term(f"False if len(self.tail) <= len({p1}.tail) else (self.tail[len(self.tail) - len({p1}.tail):] == {p1}.tail)")
+    spec.compare(chk, "C04.R6", f"{RU}:RaireNode.is_descendent_of", "descendant=strictly-longer-tail-ending-in-the-ancestor's",
+                 "a node descends from another iff its tail is strictly longer and ends with the other's tail", code, want, node=f1, strength="N")
+    f2 = chk.fn(RU, "is_suffix")
+    code, _ = spec.term(f2)
+    a_, b_ = [x.arg for x in f2.args.args[:2]]
+    want, _ = spec.expr_term(f"False if len({b_}) < len({a_}) else ({b_}[len({b_}) - len({a_}):] == {a_})")
+    spec.compare(chk, "C04.R6", f"{RU}:is_suffix", "suffix=last-len(a)-entries-equal-a",
+                 "is_suffix(a, b) iff b is at least as long as a and its last len(a) entries are a", code, want, node=f2, strength="N")
+    rd = chk.fn(RU, "RaireFrontier.replace_descendents", canonical=True)
+    npar = rd.args.args[1].arg
+    loops = [l for l in rd.body if isinstance(l, ast.For)]
+    ok = False
+    detail = {}
+    # canonical form: the collecting loop has become a comprehension (it only filters and appends), possibly inlined into the
+    # header of the deleting loop:  for k in reversed([i for i in range(len(self.nodes)) if self.nodes[i].is_descendent_of(node)])
+    if len(loops) == 1:
+        delete = loops[0]
+        it = delete.iter
+        comp = None
+        if isinstance(it, ast.Call) and norm(it.func) == "reversed" and len(it.args) == 1:
+            comp = it.args[0]
+            if isinstance(comp, ast.Name):
+                defs = [x for x in rd.body if isinstance(x, ast.Assign) and norm(x.targets[0]) == comp.id]
+                comp = defs[0].value if len(defs) == 1 and rd.body.index(defs[0]) < rd.body.index(delete) else None
+        full = rec = False
+        if isinstance(comp, ast.ListComp) and len(comp.generators) == 1:
+            g = comp.generators[0]
+            iv = norm(g.target)
+            full = norm(g.iter) == "range(len(self.nodes))" and norm(comp.elt) == iv
+            rec = len(g.ifs) == 1 and norm(g.ifs[0]) == f"self.nodes[{iv}].is_descendent_of({npar})"
+        dv = norm(delete.target)
+        dels = [x for x in walk_local(delete) if isinstance(x, ast.Delete)]
+        back = comp is not None and len(dels) == 1 and [norm(t) for t in dels[0].targets] == [f"self.nodes[{dv}]"] \
+            and parent(dels[0]) is delete and not [x for x in walk_local(delete) if isinstance(x, (ast.Break, ast.Continue, ast.Return))]
+        ins = [x for x in rd.body if isinstance(x, ast.Expr) and isinstance(x.value, ast.Call) and norm(x.value.func) == "self.insert_node"
+               and [norm(a) for a in x.value.args] == [npar]]
+        after = bool(ins) and rd.body.index(ins[0]) > rd.body.index(delete)
+        other_mut = [norm(x)[:60] for x in walk_local(rd) if isinstance(x, ast.Call) and isinstance(x.func, ast.Attribute)
+                     and norm(x.func.value) == "self.nodes" and x.func.attr in ("remove", "pop", "clear", "insert", "append")]
+        ok = full and rec and back and after and not other_mut
+        detail = dict(every_position_examined=full, recorded_iff_descendant=rec, deleted_from_the_back=back, root_inserted_afterwards=after)
+    chk.ob("C04.R6", f"{RU}:RaireFrontier.replace_descendents", "subtree-replaced-by-its-root", ok,
+           "all frontier nodes that descend from the given node are removed (positions collected over the whole frontier, deleted from "
+           "the back) and the node itself is inserted", node=rd, strength="N", **detail)
